@@ -481,8 +481,27 @@ def r6_5(prog, rep, pp):
     st = prog.fn("terms.call.Call.set_type")
     en = prog.fn("terms.call.Call.eval_new_data")
     e1 = [unparse(x) for x in calls_in(st.node) if unparse(x.func) == "self.call.eval"]
-    e2 = [unparse(x) for x in calls_in(en.node) if unparse(x.func) == "self.call.eval"]
-    ok = e1 == [f"self.call.eval({st.params[1]}, self.env)"] and e2 == [f"self.call.eval({en.params[1]}, self.env)"]
+    c2 = [x for x in calls_in(en.node) if unparse(x.func) == "self.call.eval"]
+    e2 = [unparse(x) for x in c2]
+    ok = e1 == [f"self.call.eval({st.params[1]}, self.env)"] and bool(e2) and set(e2) == {f"self.call.eval({en.params[1]}, self.env)"}
+    if ok and len(c2) > 1:
+        # several spellings of the one evaluation, on mutually exclusive paths (one per kind)
+        cg = cfg_of(en)
+        stmts = []
+        for x in c2:
+            holder = [s_ for s_ in walk_local(en.node) if isinstance(s_, ast.stmt) and s_ is not en.node
+                      and not isinstance(s_, (ast.If, ast.For, ast.While, ast.Try, ast.With, ast.FunctionDef))
+                      and any(x is y for y in ast.walk(s_))]
+            stmts.append(cg.node_of(holder[0]) if holder else None)
+        for i_, a_ in enumerate(stmts):
+            for b_ in stmts[i_ + 1:]:
+                if a_ is None or b_ is None or a_ == b_:
+                    ok = False
+                    continue
+                ra = cg.reachable_edges([(a_, s_) for s_ in cg.succ[a_]])
+                rb = cg.reachable_edges([(b_, s_) for s_ in cg.succ[b_]])
+                if b_ in ra or a_ in rb:
+                    ok = False
     obl(rep, en, en.node, "R6.5", ok, "training and prediction evaluate the SAME self.call object in the SAME self.env "
         "(the per-call-site transform instance is reused, never re-resolved from text)", f"{e1} / {e2}", f"training {e1}, prediction {e2}")
     lc = prog.fn("terms.call_resolver.LazyCall.eval")
